@@ -8,6 +8,10 @@ instrumented external functions, Lean driver C03).  What is specific here:
   * the oracle compares the CALL SEQUENCE only: the list of (function, argument values, result) the real CFG performs
     against the list CPython performs for the same source and arguments -- every call exactly as often and in the same
     order (the result of the i-th call depends on i, so a reordering also shows in the recorded results).
+
+Every disagreement is a VIOLATION keyed by the input: defect D9 (lifted sub-expressions hoisted before side-effecting left
+siblings, /repo fix f9e33c1; middle operand of a chained comparison evaluated twice, /repo fix 7c8aeda) is repaired, its
+witnesses are regression inputs (corpus/c05/d9_fixed.json, call_counts.json) and ~20% of the generated programs have its shapes.
 """
 from __future__ import annotations
 
@@ -26,8 +30,12 @@ RULE = (
     "case = (generated program `def main(x, y, z)`, returns_none flag, argument store); generator biased to expressions with "
     "calls: 1-7 statements (assignments, augmented assignments, expression statements, returns, a few if/while/for) whose "
     "expressions have depth 2-4 and interleave external calls f,g,h,k (int) / c,p,q (bool) with + - *, comparisons, "
-    "and/or (2-3 operands), not, conditional expressions, chained comparisons, walrus and nested call arguments; ~80% "
-    "hoist-safe, the rest deliberately D9-shaped. 3 argument stores per program. Per case: call trace (name, arguments, "
+    "and/or (2-3 operands), not, conditional expressions, chained comparisons, walrus and nested call arguments; ~20% of the "
+    "programs deliberately have the shapes of the former defect D9 (repaired by /repo f9e33c1, 7c8aeda): a lifted operand right of "
+    "a sibling that calls or reads a variable it assigns (binary operators, comparisons, both call arguments, `x += (x := e)`, "
+    "lifted operands inside both operands) and chained comparisons whose middle operand is a call / conditional expression / "
+    "and-or / walrus / (doubly) negated literal or is re-assigned by the right operand (`f() < g() < h()`, `x < (x := y) < 3`, "
+    "`x < y < (y := 5)`); the other programs avoid these shapes. 3 argument stores per program. Per case: call trace (name, arguments, "
     "result; results depend on the call index) of the interpreted REAL CFG vs the call trace of CPython on the same source; "
     "real CFG vs Lean `build`; Lean `run` vs CPython and vs the real-CFG interpretation. non-trivial = at least 2 external "
     "calls and at least one lifted sub-expression (and/or, conditional expression, chained comparison, walrus); distinct "
@@ -50,19 +58,24 @@ UNMODELLED = list(base.UNMODELLED) + [
     "a HUGR runtime derives from order edges",
 ]
 MANIFEST = {
-    "level_text": "Lean theorems over the hand-written model of the expression/branch builders of cfg/builder.py: for every "
-    "hoist-safe program and argument store the sequence of external calls performed by the built CFG equals the sequence "
+    "level_text": "Lean theorems over the hand-written model of the expression/branch builders of cfg/builder.py (incl. "
+    "ExprBuilder.build_operands, which stores earlier operands in temporaries before a lifted operand is built, and the chained "
+    "comparison that keeps its middle operand in a temporary): for EVERY program of the modelled fragment (no hoist-safety "
+    "hypothesis: defect D9 was repaired in /repo by f9e33c1 and 7c8aeda and the model follows the repaired builder) and every "
+    "argument store the sequence of external calls performed by the built CFG equals the sequence "
     "performed by Python's evaluation of the source (each call exactly once, left to right, arguments before the call, "
-    "short-circuit operands only when Python evaluates them); counterexample theorems for the two D9 classes; "
+    "short-circuit operands only when Python evaluates them); "
     "track_hugr_side_effects: for every sequence of node insertions the state-order edges form one repetition-free chain "
     "Input -> linked nodes -> Output per region, a side-effecting node is linked last at once, edges are append-only "
     "(order_edges_total_partial under the recorded no-double-link condition). Model tied to "
     "/repo on every run as in C03 (structure of the real CFG, interpretation of the real CFG against CPython call traces); typed "
     "programs are lowered by the real compiler, every node insertion and add_order_link call is recorded per definition and "
-    "compared with the order-edge model and with an independent per-region path oracle; Call-count probes on the lowered Hugr.",
+    "compared with the order-edge model and with an independent per-region path oracle; Call-count probes on the lowered Hugr "
+    "(one Call node per call expression, e.g. `a < idx() < b` -> 1).",
     "level_note": "Trusted: Lean kernel + propext/Classical.choice/Quot.sound; the reading of a CFG (exec of the real block "
     "statements); correspondence is sampling. D9 (middle operand of a chained comparison evaluated twice; lifted "
-    "sub-expressions hoisted before left siblings) are known findings.",
+    "sub-expressions hoisted before left siblings) is fixed in /repo (7c8aeda, f9e33c1); its witnesses are regression inputs "
+    "(corpus/c05/d9_fixed.json) and any call-sequence disagreement is a VIOLATION keyed by the input.",
     "technique": "Lean 4 proof over a hand-written builder model + differential correspondence with cfg/builder.py and CPython call traces",
     "design_ref": "DESIGN.md §5 C05",
     "ready": True,
